@@ -29,9 +29,13 @@ CanonOf(ev, id) ==
   LET hit == {ev.canon[i] : i \in {j \in 1 .. Len(ev.canon) : ev.canon[j][1] = id}} IN
   IF hit = {} THEN id ELSE (CHOOSE p \in hit : TRUE)[2]
 
+ContOf(ev, cid) == CHOOSE c \in {ev.cont[i] : i \in 1 .. Len(ev.cont)} : c.id = cid
+RECURSIVE RawVal(_, _)
 RawVal(ev, v) ==
   IF v[1] = 0 THEN <<0, v[2]>>
   ELSE IF v[1] = 1 THEN <<-2, CanonOf(ev, v[2])>>
+  ELSE IF v[1] = 3 THEN LET c == ContOf(ev, v[2]) IN          \* container of e-classes: by its logged contents
+                        MkCont(c.k, [i \in 1 .. Len(c.e) |-> RawVal(ev, c.e[i])])
   ELSE <<-1>> \o v[2]                                  \* set of i64, logged ascending
 
 RawRowsOf(ev, f) ==
@@ -47,6 +51,10 @@ RawKeysUnique(ev) ==
   \A f \in 1 .. Len(ev.tabs) :
     Cardinality({ev.tabs[f][j].a : j \in 1 .. Len(ev.tabs[f])}) = Len(ev.tabs[f])
 RawIdsCanonical(ev) == \A i \in 1 .. Len(ev.canon) : ev.canon[i][1] = ev.canon[i][2]
+\* equal container contents (modulo the recorded equalities) share one container id
+RawContainersHashConsed(ev) ==
+  (~Has(ev, "cont")) \/
+  Cardinality({RawVal(ev, <<3, ev.cont[i].id>>) : i \in 1 .. Len(ev.cont)}) = Len(ev.cont)
 \* after canonicalisation no two rows share a key (congruent rows were merged)
 RawCongruenceClosed(ev) == Functional(RawRows(ev))
 
@@ -127,6 +135,7 @@ Judge(w, ev, exp, obs) ==
   /\ (cmpst /\ ~RawKeysUnique(ev)) => Bad("raw-duplicate-key")
   /\ (cmpst /\ ~RawIdsCanonical(ev)) => Bad("raw-noncanonical-id")
   /\ (cmpst /\ RawIdsCanonical(ev) /\ ~RawCongruenceClosed(ev)) => Bad("raw-congruence-open")
+  /\ (cmpst /\ RawIdsCanonical(ev) /\ ~RawContainersHashConsed(ev)) => Bad("raw-containers-not-hash-consed")
   /\ (exact /\ exp.ok /\ ev.res = "err") => Bad(IF ev.c.k = "check" THEN "check-failed-but-holds" ELSE "unexpected-error")
   /\ (exact /\ ~exp.ok /\ ev.res = "ok") => Bad(IF ev.c.k = "check" THEN "check-passed-but-fails" ELSE "missing-error")
   /\ (cmpst /\ exact /\ exp.ok /\ ev.res = "ok" /\ ~IsWild(exp.rows) /\ obs # exp.rows) =>
@@ -164,7 +173,7 @@ TCmd ==
          w2 == After(w, c, ev, obs)
      IN /\ Judge(w, ev, exp, obs)
         /\ (cmpst /\ Has(ev, "otabs") /\ ~Has(idle, "none")
-              /\ Canonize(RawRows([tabs |-> ev.otabs, canon |-> ev.ocanon])) # idle.rows) => Bad("clone-interference")
+              /\ Canonize(RawRows([tabs |-> ev.otabs, canon |-> ev.ocanon, cont |-> ev.ocont])) # idle.rows) => Bad("clone-interference")
         /\ res' = ev.res /\ prog' = prog /\ cmpst' = cmpst /\ cur' = slot /\ other' = idle
         /\ rows' = w2.rows /\ active' = w2.active /\ stack' = w2.stack /\ declf' = w2.declf /\ tainted' = w2.tainted
 
